@@ -621,7 +621,7 @@ class Executor(ValueOps, InstrOps):
             return
         guard = b_or(*[e.guard for e in edges])
         env = self._merge_envs(fr, edges)
-        state = {"guard": guard}
+        state = {"guard": guard, "block": block["index"], "cut_header": cut_header}
         instrs = block["instrs"]
         rt = fr.fn["_regtypes"]
         for ins in instrs:
@@ -630,11 +630,15 @@ class Executor(ValueOps, InstrOps):
                 val = None
                 first = True
                 for e in reversed(edges):
-                    pi = block["preds"].index(e.pred) if e.pred in block["preds"] else None
-                    if pi is None:
-                        raise Unsupported("phi: edge from non-pred")
-                    # a block may appear twice as pred (both branches of an If): take first matching
-                    v = self.val(e.env, ins["edges"][pi])
+                    if e.pred == -1:
+                        # skip edge of a per-entry map range (header -> header, opts map_range=per_entry): loop-carried values unchanged
+                        v = e.env[ins["reg"]]
+                    else:
+                        pi = block["preds"].index(e.pred) if e.pred in block["preds"] else None
+                        if pi is None:
+                            raise Unsupported("phi: edge from non-pred")
+                        # a block may appear twice as pred (both branches of an If): take first matching
+                        v = self.val(e.env, ins["edges"][pi])
                     if first:
                         val = v
                         first = False
@@ -660,6 +664,9 @@ class Executor(ValueOps, InstrOps):
                 self.do_panic(fr, state["guard"], "explicit panic", ins.get("pos"), self.val(env, ins["x"]))
                 return
             self.exec_instr(fr, env, ins, state["guard"], state)
+            sk = state.pop("skip_edge", None)
+            if sk is not None:
+                self._emit_edge(Edge(sk, -1, dict(env)), block["index"], blocks, cut_header, pending, exits)
             if state["guard"] is False:
                 return
         # fallthrough (should not happen)
